@@ -8,6 +8,7 @@ import Driver.CO
 import Driver.LT
 import Driver.SU
 import Driver.MG
+import Driver.CN
 /-!
 Line-protocol driver: one operation per input line, one observation per output line:
 `<model observation>\t<spec observation>`.  First token selects the component.
@@ -25,6 +26,7 @@ structure All where
   lt : LT.St := {}
   su : SU.St := {}
   mg : MG.St := {}
+  cn : CN.St := {}
 
 def stepAll (s : All) (line : String) : All × String :=
   match (line.trimAscii.toString.splitOn " ").filter (· ≠ "") with
@@ -58,6 +60,9 @@ def stepAll (s : All) (line : String) : All × String :=
   | "mg" :: args =>
       let (c, a, b) := MG.step s.mg args
       ({ s with mg := c }, a ++ "\t" ++ b)
+  | "cn" :: args =>
+      let (c, a, b) := CN.step s.cn args
+      ({ s with cn := c }, a ++ "\t" ++ b)
   | [] => (s, "")
   | _ => (s, "bad-component\tbad-component")
 
